@@ -213,7 +213,10 @@ fn run_case<C: Cont>(st: &mut Stream, proc_: &mut Processor<C>, c: &Case) {
         let toks: Vec<String> = c.roots.iter().enumerate().map(|(i, r)| match c.aborts.iter().find(|a| a.0 == i) { Some(a) => format!("{}!{}", r, a.1), None => r.to_string() }).collect();
         op.push_str(&toks.join(","));
     }
-    let case_txt = if c.edges.len() <= 80 {
+    let case_txt = if c.label.starts_with("long-run") {
+        let rare: Vec<usize> = c.roots.iter().enumerate().filter(|(_, &r)| r != c.roots[1]).map(|(i, _)| i).collect();
+        format!("{} {} n={} edges={:?} ONE processor, {} consecutive process calls: output node {} on every call except output node {} on calls {:?}", C::NAME, c.label, c.n, c.edges, c.roots.len(), c.roots[1], c.roots[0], rare)
+    } else if c.edges.len() <= 80 {
         format!("{} n={} edges={:?} dropped={:?} removed={:?} roots={:?} failing-nodes(call,node)={:?}", C::NAME, c.n, c.edges, c.drop_edges, c.removed, c.roots, c.aborts)
     } else {
         format!("{} {} n={} |edges|={} first edges={:?}… dropped={:?} removed={:?} roots={:?} failing-nodes(call,node)={:?} (regenerate with the same seed/tier; the full request line is in the stream)", C::NAME, c.label, c.n, c.edges.len(), &c.edges[..12], c.drop_edges, c.removed, c.roots, c.aborts)
@@ -387,6 +390,8 @@ fn run_case<C: Cont>(st: &mut Stream, proc_: &mut Processor<C>, c: &Case) {
     st.count(&format!("{}_nodes_{:02}", C::NAME, if bound <= 4 { bound } else { (bound + 9) / 10 * 10 }));
     if !c.removed.is_empty() { st.count("stable_with_vacant_slots"); }
     let evals = c.roots.len() as u64;
+    // the long runs are checked by the oracles above only (their request line would be megabytes)
+    if c.label.starts_with("long-run") { st.count("long_run_calls_on_one_processor_gt_260k"); return; }
     st.case(&op, &obs.join(" "), nontrivial, evals);
     // break the Rc cycle-free structures explicitly (nodes hold ctx clones; graph drops here)
 }
@@ -542,6 +547,24 @@ fn big_cases(st: &mut Stream, rng: &mut Rng, thorough: bool) {
     }
 }
 
+/// a small two-bus graph processed several hundred thousand times by ONE processor: the main output on almost every
+/// call, the other output only at calls whose distances from each other are 255, 256, 257, 65534, 65535, 65536, 65537
+/// (whatever per-call bookkeeping a processor keeps — visit stamps, generation counters — must not wrap into a wrong answer)
+fn long_run_case(rng: &mut Rng) -> Case {
+    let n = 5 + rng.usize_below(3);
+    // 0 = source, main bus ends in n-2, monitor bus ends in n-1; both hang off the source, some cross edges
+    let (main, mon) = (n - 2, n - 1);
+    let mut edges = vec![(0, 1), (1, main), (0, 2), (2, mon)];
+    for _ in 0..rng.usize_below(4) { let a = rng.usize_below(n - 2); let b = 1 + rng.usize_below(n - 1); if a < b { edges.push((a, b)); } }
+    let init: Vec<u64> = (0..n).map(|i| 1000 + i as u64).collect();
+    let mut rare = vec![0usize];
+    for d in [255usize, 256, 257, 65534, 65535, 65536, 65537] { rare.push(rare.last().unwrap() + d); }
+    let total = rare.last().unwrap() + 3;
+    let mut roots = vec![main; total];
+    for &i in &rare { roots[i] = mon; }
+    Case { n, edges, drop_edges: vec![], removed: vec![], init, roots, aborts: vec![], label: "long-run two-bus".into() }
+}
+
 fn run(a: &Args) {
     let mut st = Stream::new(&a.out, "proc");
     let mut rng = Rng::new(a.seed, "proc");
@@ -560,6 +583,14 @@ fn run(a: &Args) {
         let c = wide_case(&mut rng, k, d); run_case(&mut st, &mut pg, &c);
         let nn = 40 + rng.usize_below(50);
         let c = big_dense_case(&mut rng, "dense-cyclic", nn, "shuffle"); run_case(&mut st, &mut ps, &c);
+    }
+    {
+        let c = long_run_case(&mut rng);
+        let mut fresh: Processor<Graph<NodeData<Instr>, ()>> = Processor::with_capacity(c.n);
+        run_case(&mut st, &mut fresh, &c);
+        let c = long_run_case(&mut rng);
+        let mut fresh: Processor<StableGraph<NodeData<Instr>, ()>> = Processor::with_capacity(0);
+        run_case(&mut st, &mut fresh, &c);
     }
     for n in 1..=3 {
         exhaustive(&mut st, &mut pg, n, 2, false);
